@@ -410,6 +410,9 @@ PagSessionClauses(post, o, S) ==
                      /\ IsPrefixOf(a.ps[i], p)
                      /\ \A k2 \in 1..Len(a.ps) : IsPrefixOf(a.ps[k2], p) => Len(a.ps[k2]) <= Len(a.ps[i])
       all == r.sofar \o [j \in 1..Len(r.pages) |-> r.pages[j].l]
+      \* the property speaks of "a webentity's pages ... prefix by prefix": the prefixes given are the
+      \* webentity's current prefixes (a session outlives that when the webentity is edited meanwhile)
+      current == SeqSet(a.ps) = { e[1] : e \in { x \in WSet(o) : x[2] = a.id } }
   IN FailNamesQ(<<
     <<"C09.nofail",   r.exc = "">>,
     <<"bind.pag",     r.exc = "" => (r.done = want.done /\ r.pages = want.pages
@@ -421,13 +424,14 @@ PagSessionClauses(post, o, S) ==
     <<"C09.marks",    \A j \in 1..Len(r.pages) :
                          r.pages[j].cr = (r.pages[j].l \in CSet(o)) /\ (a.co => r.pages[j].cr)>>,
     \* across the answers of a session: claimed when only page insertions happened in between
-    <<"C09.nodup",    r.pure => Len(all) = Cardinality(SeqSet(all))>>,
+    <<"C09.nodup",    (r.pure /\ current) => Len(all) = Cardinality(SeqSet(all))>>,
     <<"C09.order",    LET seq == IF r.pure THEN all ELSE [j \in 1..Len(r.pages) |-> r.pages[j].l] IN
+                      current =>
                       \A i \in 1..Len(seq) : \A j \in 1..Len(seq) : i < j =>
                          \/ OwnIdx(seq[i]) < OwnIdx(seq[j])
                          \/ (OwnIdx(seq[i]) = OwnIdx(seq[j]) /\ LruLess(seq[i], seq[j]))>>,
     <<"C09.member",   got \subseteq LSet(r.wpages)>>,
-    <<"C09.complete", (r.exc = "" /\ r.done /\ r.pure) =>
+    <<"C09.complete", (r.exc = "" /\ r.done /\ r.pure /\ current) =>
                          { p \in SeqSet(r.through) : ~a.co \/ p \in SeqSet(r.cthrough) } \subseteq SeqSet(all)>>,
     <<"C09.token",    r.tokenRoundTrip>>
   >>)
@@ -450,7 +454,8 @@ PagLinkSessionClauses(post, o, S) ==
                                            ELSE (r.nsrc = a.k /\ r.hasToken)))>>,
     \* across the answers of a session: C10 speaks of a reachable state, i.e. no write in between
     <<"C10.once",     IF r.quiet THEN Len(r.sofar) + Len(r.links) = Cardinality({ <<e[1], e[2]>> : e \in all })
-                      ELSE Len(r.links) = Cardinality({ <<e[1], e[2]>> : e \in Trip(r.links) })>>,
+                      ELSE (SeqSet(a.ps) = { e[1] : e \in { x \in WSet(o) : x[2] = a.id } }) =>
+                           Len(r.links) = Cardinality({ <<e[1], e[2]>> : e \in Trip(r.links) })>>,
     <<"C10.subset",   Trip(r.links) \subseteq Trip(r.full)>>,
     <<"C10.union",    (r.exc = "" /\ r.done /\ r.quiet) => all = Trip(r.full)>>,
     <<"C10.token",    r.tokenRoundTrip>>
